@@ -252,6 +252,10 @@ inductive Ctx where
   | list (xs : List Elem)
   /-- `s = AttributeSet.from_dict(d); s[k] = v; s.rebuild()` -/
   | setItem (d : List (Text × PyVal)) (k : Text) (v : PyVal)
+  /-- `src = parse(text); src[k] = v; src.rebuild()` where `text` is the canonical one-line
+      (`ml = false`) or one-binding-per-line (`ml = true`) spelling of the set `d`: `parse` sets the
+      `multiline` flag from the text, item assignment keeps it. -/
+  | setItemOn (d : List (Text × PyVal)) (ml : Bool) (k : Text) (v : PyVal)
 deriving Repr, Inhabited
 
 /-- `.rebuild()` is `rebuild(indent=0, inline=False)`. -/
@@ -261,5 +265,6 @@ def renderCtx : Ctx → Text
   | .binding k v => renderBinding k (bindValue v) 0 false
   | .list xs => renderElem (.list xs) 0 false
   | .setItem d k v => renderExpr (setItem (fromDict d) k v) 0 false
+  | .setItemOn d ml k v => renderExpr (setItem (.aset (bindAll d) ml) k v) 0 false
 
 end Nima
